@@ -20,6 +20,10 @@ Example eq_implies_equal_hash_nonvacuous :
   ex_a <> ex_b /\ v_wf ex_a = true /\ v_wf ex_b = true /\ v_cmp table_cmp_by_lookup ex_a ex_b = Some 0%Z.
 Proof. exact (HashProofs.ex_eq_hash_nonvacuous table_cmp_by_lookup). Qed.
 
+Example eq_implies_equal_hash_nonvacuous_float_keys :
+  ex_fa <> ex_fb /\ v_wf ex_fa = true /\ v_wf ex_fb = true /\ v_cmp table_cmp_by_lookup ex_fa ex_fb = Some 0%Z.
+Proof. exact HashProofs.ex_float_keys_nonvacuous. Qed.
+
 (* the Float clause on bit patterns: Float_Cmp = 0 on non-NaN doubles only for identical doubles
    or two zeros (Flocq binary64 subtraction, round to nearest even) *)
 Theorem float_cmp_zero_only_for_equal : forall a b : N,
